@@ -49,6 +49,8 @@ class Ctx(object):
         self.max_decisions = max_decisions
         self.feas_unknown = 0
         self.inputs = {}               # name -> z3 term, the symbolic inputs (for models)
+        self.called = False            # set when an instrumented function is entered
+        self.extra = None
 
     # -- fresh symbols ---------------------------------------------------------
     def fresh(self, prefix, sort='int'):
@@ -191,6 +193,8 @@ def explore(run, post=None, max_paths=200000, feas_timeout_ms=3000, on_path=None
                 stats['oos'] += 1
                 p = Path(c.pc, 'oos', OutOfSubset('recursion limit'), c.obligations, c.assumptions, c.inputs, c.notes)
             except Exception as e:            # a real Python exception is a path outcome
+                if not c.called:
+                    raise                     # raised by the harness before the function under test was entered
                 p = Path(c.pc, 'exc', e, c.obligations, c.assumptions, c.inputs, c.notes)
             if p is not None and post is not None:
                 try:
